@@ -78,11 +78,12 @@ def estimator(case):
     return cls(n=case["n"], weight=case["weight"], pseudorapidity_gap=case["gap"])
 
 
-def call(case, flow, ref):
+def call(case, flow, ref, obj=None):
     """the observable of the real estimator for given Particle lists -> nested python floats / ('err', cls)"""
     with np.errstate(all="ignore"):
         try:
-            obj = estimator(case)
+            if obj is None:
+                obj = estimator(case)
             if case["est"] == "RP":
                 if case["mode"] == "int":
                     r = complex(obj.integrated_flow(flow))
@@ -279,6 +280,42 @@ def oracle(case):
         d = call(wide, mk_events(case["flow"], n), mk_events(case["ref"], n) if case["est"] != "RP" else None)
         if isinstance(d, tuple) or not same([base] if True else None, d if case["est"] == "RP" else [d[0]], 1e-6):
             return f"{case['est']}: differential flow over one all-containing bin {d} differs from the integrated flow {base}"
+    # 5. history independence: ONE estimator object and the SAME list objects, evaluated again after the particles were
+    #    rotated in place and after particles/events were reordered in place (nothing may be remembered between calls)
+    if not degenerate(case) and not ill_conditioned(case):
+        try:
+            obj = estimator(case)
+        except Exception:
+            obj = None
+        if obj is not None:
+            fo = mk_events(case["flow"], n)
+            ro = mk_events(case["ref"], n) if case["est"] != "RP" else None
+            first = call(case, fo, ro, obj)
+            vf, ef = split(case, first)
+            if not (same(vb, vf) and (eb is None or errs_same(eb, ef))):
+                return f"{case['est']} {case['mode']}: the same input evaluated twice gives {base} and {first}"
+            for evs in ([fo] if ro is None else [fo, ro]):
+                for ev, a in zip(evs, alphas):
+                    ca, sa = math.cos(a), math.sin(a)
+                    for P in ev:
+                        x, y = P.px, P.py
+                        P.px, P.py = x * ca - y * sa, x * sa + y * ca
+            second = call(case, fo, ro, obj)
+            vs, es = split(case, second)
+            if not (same(v1, vs) and (e1 is None or errs_same(e1, es))):
+                return (f"{case['est']} {case['mode']}: one estimator object given the same list objects again after the particles were "
+                        f"rotated in place returns {second}; a fresh evaluation of the rotated sample gives {rot}")
+            can_perm = len(fo) == nev and (ro is None or len(ro) == nev)
+            for evs in ([fo] if ro is None else [fo, ro]):
+                if can_perm:
+                    evs[:] = [evs[i] for i in perm]
+                for ev in evs:
+                    ev.reverse()
+            third = call(case, fo, ro, obj)
+            vt, et = split(case, third)
+            if not (same(v1, vt) and (e1 is None or errs_same(e1, et))):
+                return (f"{case['est']} {case['mode']}: one estimator object given the same list objects again after they were "
+                        f"reordered in place returns {third}; expected {rot}")
     return None
 
 
